@@ -280,6 +280,10 @@ func c20Pem(name string) string {
 	return "this is not a certificate"
 }
 
+// c20Period is the virtual time one "tick" lets pass: the longest refresh interval of the settings (1 s), so that
+// every watcher's interval has elapsed - and a watcher that polls more slowly than configured has NOT fired.
+const c20Period = time.Second
+
 type c20Replay struct {
 	History []seqx.Event `json:"history"`
 }
@@ -289,7 +293,9 @@ func c20Model(run *ev.Run, settings []string) seqx.Model {
 	for _, st := range settings {
 		evs = append(evs, seqx.Event{Kind: "load", Arg: st})
 	}
-	evs = append(evs, seqx.Event{Kind: "rewrite", Arg: "one"}, seqx.Event{Kind: "rewrite", Arg: "two"}, seqx.Event{Kind: "rewrite", Arg: "garbage"}, seqx.Event{Kind: "tick"})
+	evs = append(evs, seqx.Event{Kind: "rewrite", Arg: "one"}, seqx.Event{Kind: "rewrite", Arg: "two"}, seqx.Event{Kind: "rewrite", Arg: "garbage"}, seqx.Event{Kind: "tick"},
+		// the file is unreadable (removed) for three refresh periods, then back with the content it had, one more period
+		seqx.Event{Kind: "outage"})
 	return seqx.Model{
 		Serial: true,
 		New: func() seqx.Sys {
@@ -333,9 +339,20 @@ func c20Model(run *ev.Run, settings []string) seqx.Model {
 				}
 				s.content = e.Arg
 				s.history[e.Arg] = true
-			case "tick":
+			case "tick", "outage":
+				if e.Kind == "outage" {
+					_ = os.Remove(s.file)
+					for k := 0; k < 3; k++ {
+						vsched.Quiesce()
+						vtime.AdvanceBy(c20Period)
+					}
+					vsched.Quiesce()
+					if err := os.WriteFile(s.file, []byte(c20Pem(s.content)), 0o600); err != nil {
+						panic(err)
+					}
+				}
 				vsched.Quiesce()
-				vtime.FireAll(time.Now())
+				vtime.AdvanceBy(c20Period)
 				vsched.Quiesce()
 				for _, c := range s.clients {
 					if c20Settings[c.Setting].Interval != "unset" && c20Settings[c.Setting].Interval != "0" {
@@ -371,7 +388,7 @@ func c20Model(run *ev.Run, settings []string) seqx.Model {
 					// after a tick the client trusts exactly what its watcher has (validly) seen; between a
 					// rewrite and the next tick either the old or the new content is acceptable
 					okSet := map[string]bool{c.Seen: true}
-					if e.Kind != "tick" && s.content != "garbage" {
+					if e.Kind != "tick" && e.Kind != "outage" && s.content != "garbage" {
 						okSet[s.content] = true
 					}
 					if !okSet[got] {
@@ -407,7 +424,7 @@ func c20Model(run *ev.Run, settings []string) seqx.Model {
 				tr = append(tr, k)
 			}
 			sort.Strings(tr)
-			return fmt.Sprintf("content=%s|hist=%s|tickers=%d|tried=%v|%s|%s", s.content, h, vtime.Live(), tr, strings.Join(parts, ","),
+			return fmt.Sprintf("content=%s|hist=%s|tickers=%d%v|tried=%v|%s|%s", s.content, h, vtime.Live(), vtime.Periods(), tr, strings.Join(parts, ","),
 				hidden.Dump(s.pool, "log", "mu", "ctx", "configs"))
 		},
 	}
